@@ -659,3 +659,155 @@ func R7LootHandle(c *Ctx) {
 		}
 	}
 }
+
+// idDecodeKind: how a 32-bit id on the wire became the int that is passed on — "u32" (zero-extended) or "s32"
+// (sign-extended) — read off the first 32-bit-typed value in its backward chain; "" when undecided.
+func idDecodeKind(v ssa.Value, depth int, seen map[ssa.Value]bool) string {
+	if v == nil || depth > 12 || seen[v] {
+		return ""
+	}
+	seen[v] = true
+	if b, ok := v.Type().Underlying().(*types.Basic); ok {
+		switch b.Kind() {
+		case types.Uint32:
+			return "u32"
+		case types.Int32:
+			return "s32"
+		}
+	}
+	switch x := v.(type) {
+	case *ssa.Convert:
+		return idDecodeKind(x.X, depth+1, seen)
+	case *ssa.ChangeType:
+		return idDecodeKind(x.X, depth+1, seen)
+	case *ssa.Phi:
+		k := ""
+		for _, e := range x.Edges {
+			if _, isC := e.(*ssa.Const); isC {
+				continue
+			}
+			ke := idDecodeKind(e, depth+1, seen)
+			if ke == "" || (k != "" && ke != k) {
+				return ""
+			}
+			k = ke
+		}
+		return k
+	case *ssa.UnOp:
+		if x.Op == token.MUL {
+			if al, ok := x.X.(*ssa.Alloc); ok {
+				if b, ok := al.Type().Underlying().(*types.Pointer).Elem().Underlying().(*types.Basic); ok {
+					switch b.Kind() {
+					case types.Uint32:
+						return "u32"
+					case types.Int32:
+						return "s32"
+					}
+				}
+				k := ""
+				for _, r := range *al.Referrers() {
+					if st, ok := r.(*ssa.Store); ok && st.Addr == ssa.Value(al) {
+						if _, isC := st.Val.(*ssa.Const); isC {
+							continue
+						}
+						ke := idDecodeKind(st.Val, depth+1, seen)
+						if ke == "" || (k != "" && ke != k) {
+							return ""
+						}
+						k = ke
+					}
+				}
+				return k
+			}
+		}
+	case *ssa.Extract:
+		if call, ok := x.Tuple.(*ssa.Call); ok {
+			return idDecodeKindOfCall(call, x.Index, depth, seen)
+		}
+	case *ssa.Call:
+		return idDecodeKindOfCall(x, 0, depth, seen)
+	}
+	return ""
+}
+
+func idDecodeKindOfCall(call *ssa.Call, idx, depth int, seen map[ssa.Value]bool) string {
+	callee := call.Call.StaticCallee()
+	if callee == nil || callee.Blocks == nil {
+		return ""
+	}
+	k := ""
+	for _, b := range callee.Blocks {
+		ret, ok := b.Instrs[len(b.Instrs)-1].(*ssa.Return)
+		if !ok || idx >= len(ret.Results) {
+			continue
+		}
+		if _, isC := ret.Results[idx].(*ssa.Const); isC {
+			continue
+		}
+		ke := idDecodeKind(ret.Results[idx], depth+1, seen)
+		if ke == "" || (k != "" && ke != k) {
+			return ""
+		}
+		k = ke
+	}
+	return k
+}
+
+// R7FileIDDecode — open, write and close decode the file id the same way.
+func R7FileIDDecode(c *Ctx) {
+	const rule = "R7-fileid-decode"
+	c.R.Rule(rule, "the file id that TaskDispatch hands to DownloadAdd (open), DownloadWrite and DownloadGet/DownloadClose is decoded from its four wire bytes with the same signedness at every site (today: unsigned, through Uint32/ParseInt32): a sibling that sign-extends looks up ids >= 0x80000000 that were registered under their unsigned value, so chunks and the close of such a transfer are dropped and the loot file stays empty and open", 4)
+	td := c.P.Func(PkgAgent, "Agent.TaskDispatch")
+	if td == nil {
+		c.R.Anchor(rule, "agent.(*Agent).TaskDispatch")
+		return
+	}
+	type site struct {
+		name, kind, pos string
+	}
+	var sites []site
+	argIdx := map[string]int{
+		"(*Havoc/pkg/agent.Agent).DownloadAdd":   0,
+		"(*Havoc/pkg/agent.Agent).DownloadWrite": 0,
+		"(*Havoc/pkg/agent.Agent).DownloadGet":   0,
+		"(*Havoc/pkg/agent.Agent).DownloadClose": 0,
+	}
+	for _, fn := range HelperClosure(td, 1) {
+		EachCall(fn, func(call ssa.CallInstruction) {
+			name := CalleeName(call)
+			i, ok := argIdx[name]
+			if !ok {
+				return
+			}
+			args := CallArgs(call)
+			if i >= len(args) {
+				return
+			}
+			sites = append(sites, site{shortCallee(name), idDecodeKind(args[i], 0, map[ssa.Value]bool{}), c.pos(call.Pos())})
+		})
+	}
+	count := map[string]int{}
+	for _, s := range sites {
+		count[s.kind]++
+	}
+	major := "u32"
+	if count["s32"] > count["u32"] {
+		major = "s32"
+	}
+	ord := map[string]int{}
+	for _, s := range sites {
+		ord[s.name]++
+		construct := s.name + " file id decode #" + itoa(ord[s.name])
+		switch {
+		case s.kind == "":
+			c.R.Und(rule, FuncShort(td), construct, s.pos, "could not determine how the id was widened from its 32 wire bits")
+		case s.kind == major:
+			c.R.Ok(rule, FuncShort(td), construct, s.pos, "decoded as "+s.kind+" like its siblings", true)
+		default:
+			c.R.Bad(rule, FuncShort(td), construct, s.pos, "this site widens the id as "+s.kind+" while the others use "+major+": ids with the top bit set name different transfers at open and at write/close")
+		}
+	}
+	if len(sites) == 0 {
+		c.R.Anchor(rule, "calls of DownloadAdd/DownloadWrite/DownloadGet/DownloadClose in TaskDispatch")
+	}
+}
